@@ -279,6 +279,8 @@ def run_c20(ctx):
                     ctx.violations.append(dict(property="C20", what="configuring from a project that was not simulated successfully gave no warning", case=case))
                 continue
             D = subp.time - (n_abs if remove else 0)
+            if D == 0:
+                continue   # kept finding F27 (zero-duration sub-project): outside the claimed fragment, replayed separately
             if sub.default_work_amount != D or sub.unit_timedelta != subp.unit_timedelta:
                 ctx.violations.append(dict(property="C20", what="work amount %r / unit %r, expected duration %d / %r" % (sub.default_work_amount, sub.unit_timedelta, D, subp.unit_timedelta), case=case))
                 continue
@@ -477,3 +479,26 @@ def model_tie(ctx, drv, project, q, ja, case):
     if ans != " ".join(codec.enc_model(mq) + codec.enc_state(mq, sq)):
         cell["disagreements"] += 1
         ctx.footprint_disagreements.append(dict(case=case, phase="persist:import", detail="model import differs from what read_simple_json built"))
+
+
+def c20_zero_duration_witness():
+    """kept finding F27: a sub-project of duration 0 (all its tasks finished by default progress)
+    still occupies one working step of the parent run; returns True while that is the case"""
+    t = BaseTask("a", default_work_amount=2.0, default_progress=1.0)
+    mk = lambda tasks, org=None: BaseProject(init_datetime=datetime.datetime(2020, 1, 1), unit_timedelta=datetime.timedelta(days=1),  # noqa: E731
+                                             product=BaseProduct([]), organization=org or BaseOrganization([], []), workflow=BaseWorkflow(tasks))
+    sp = mk([t])
+    sp.simulate()
+    with tempfile.TemporaryDirectory() as d:
+        path = os.path.join(d, "s.json")
+        sp.write_simple_json(path)
+        sub = BaseSubProjectTask(name="SUB", file_path=path)
+        sub.set_all_attributes_from_json()
+        sub.set_work_amount_progress_of_unit_step_time(datetime.timedelta(days=1))
+        post = BaseTask("post", default_work_amount=1.0)
+        post.append_input_task(sub)
+        w = BaseWorker("w", workamount_skill_mean_map={"post": 1.0})
+        tm = BaseTeam("tm", worker_list=[w], targeted_task_list=[post])
+        pp = mk([sub, post], BaseOrganization([tm], []))
+        pp.simulate()
+    return sp.time == 0 and sum(1 for x in sub.state_record_list if x == BaseTaskState.WORKING) != 0
